@@ -31,7 +31,10 @@ pub fn gen(ctx: &mut Ctx) {
         let mut steps = vec![];
         for _ in 0..ctx.rng.range(2, 10) {
             if ctx.rng.below(6) == 0 {
-                steps.push(step(Op::Make(simple_make(ctx, "example.com"))));   // registrations in between (counter on or off)
+                // registrations in between (counter on or off), half of them for a user who already has a credential here
+                let mut m = simple_make(ctx, "example.com");
+                if ctx.rng.bool() { m.user = vec![ctx.rng.below(ncred as u64) as u8]; ctx.stat("c08.reregistration_of_existing_user"); }
+                steps.push(step(Op::Make(m)));
             } else {
                 let mut g = simple_get(ctx, "example.com");
                 g.allow = Some(vec![ctx.rng.pick(&ids).clone()]);
@@ -40,6 +43,8 @@ pub fn gen(ctx: &mut Ctx) {
                 }
                 let mut st = step(Op::Get(g));
                 if ctx.rng.below(8) == 0 { st.uv.answer = Ok((true, false)); }   // denied now and then: no counter step
+                // the store refuses the write-back now and then (store call 0 = lookup, 1 = update): no success may be reported
+                if ctx.rng.below(8) == 0 { st.faults = vec![None, Some(*ctx.rng.pick(&[0x7Fu8, 0x28, 0x01]))]; ctx.stat("c08.update_fault"); }
                 steps.push(st);
             }
         }
